@@ -452,6 +452,13 @@ Import ListNotations.
 """
 
 
+def write_if_changed(path, txt):
+    if not os.path.exists(path) or open(path).read() != txt:
+        os.makedirs(os.path.dirname(path), exist_ok=True)
+        open(path, "w").write(txt)
+        print("tr_mpfrrules: regenerated %s" % path)
+
+
 def main():
     T.check_constant_names()
     codes = T.read_typecodes()
@@ -506,7 +513,7 @@ def main():
     out.append("Definition mpfr_arith : list ((aop * akind) * arule) := [")
     out.append(";\n".join("  ((O%s, K%s), %s)" % (o.capitalize(), k, r) for o, k, r in arows))
     out.append("].")
-    T.write_if_changed(os.path.join(OUTDIR, "Gen_MpfrRules.v"), "\n".join(out) + "\n")
+    write_if_changed(os.path.join(OUTDIR, "Gen_MpfrRules.v"), "\n".join(out) + "\n")
     return 0
 
 
